@@ -859,7 +859,10 @@ pub fn generate(prop: &str, thorough: bool, seed: u64, idx: u64) -> Sc {
         let n = 1 + sr.below(3);
         for _ in 0..n {
             let at = sr.below(approx_len);
-            match sr.below(6) {
+            match sr.below(8) {
+                // not in C11 runs: the three drivers are compared there, and the statement lists the finish causes
+                6 if flavour != "c11" => actions.push(Action { at, kind: "stop".into(), hook: None, area: 0, prot: 0 }),
+                7 if flavour != "c11" => actions.push(Action { at, kind: "clone_register".into(), hook: Some(gen_hook(&mut sr, flavour, &present, &traps, false)), area: 0, prot: 0 }),
                 0 | 1 => actions.push(Action { at, kind: "register".into(), hook: Some(gen_hook(&mut sr, flavour, &present, &traps, stopper)), area: 0, prot: 0 }),
                 2 => {
                     if sr.chance(1, 2) {
